@@ -307,17 +307,18 @@ def allowed_refusal(op, st, exc):
     return False
 
 
-def view_of(x):
-    """every reading of the abstract view that the public API offers"""
+def view_of(x, full=True):
+    """every reading of the abstract view that the public API offers (full=False: to_dict only, for the receiver)"""
     d = x.to_dict()
-    return {"names": list(x.names), "rows": [[n, s] for n, s in d.items()],
-            "seqs": [str(s) for s in x.seqs], "named": [[n, str(x.named_seqs[n])] for n in x.names],
+    rows = [[n, s] for n, s in d.items()]
+    return {"names": list(x.names), "rows": rows,
+            "seqs": [str(s) for s in x.seqs] if full else [s for _, s in rows],
             "len": len(x), "num_seqs": x.num_seqs, "mt": x.moltype.label, "cls": type(x).__name__}
 
 
-def compare(x, accept):
-    """-> None when x shows one of the acceptable states, else (what, message)"""
-    v = view_of(x)
+def compare(x, accept, full=True):
+    """-> (state, None) when x shows one of the acceptable states, else (None, (what, message))"""
+    v = view_of(x, full)
     first = None
     for st in accept:
         rows = st["rows"]
@@ -333,8 +334,8 @@ def compare(x, accept):
                 bad = ("rows/content", f"rows {v['rows']} expected {rows}")
         elif v["names"] != [n for n, _ in rows]:
             bad = ("names", f".names {v['names']} expected {[n for n, _ in rows]}")
-        elif v["seqs"] != [s for _, s in rows] or v["named"] != rows:
-            bad = ("seqs", f".seqs {v['seqs']} / named_seqs {v['named']} disagree with rows {rows}")
+        elif v["seqs"] != [s for _, s in rows]:
+            bad = ("seqs", f".seqs {v['seqs']} disagree with rows {rows}")
         elif v["len"] != L:
             bad = ("len", f"len() {v['len']} expected {L}")
         elif v["num_seqs"] != len(rows):
@@ -359,7 +360,7 @@ def run_history(cname, arr, mt, rows, ops, case):
         x = build(rows, mt, arr)
     except Exception as e:
         return ("fail", f"{cname}/{cls}/construct/raises {type(e).__name__}", f"{case}: {type(e).__name__}: {e}")
-    _, bad = compare(x, [st])
+    _, bad = compare(x, [st], full=False)
     if bad:
         return ("fail", f"{cname}/{cls}/construct/{bad[0]}", f"{case}: {bad[1]}")
     prev = []
@@ -380,7 +381,7 @@ def run_history(cname, arr, mt, rows, ops, case):
             return ("fail", f"{cname}/{cls}/{kind}/raises {type(e).__name__}{after}",
                     f"{case} (op {op}): {type(e).__name__}: {str(e)[:200]}")
         # the receiver is unchanged
-        _, bad = compare(x, [st])
+        _, bad = compare(x, [st], full=False)
         if bad:
             return ("fail", f"{cname}/{cls}/{kind}/receiver-changed/{bad[0]}{after}", f"{case} (op {op}): {bad[1]}")
         if y is None or (isinstance(y, dict) and not y):
@@ -441,11 +442,20 @@ def layouts(nrows, L, fill):
         yield [[NAMES[r], "".join("-" if mask[r * L + j] else fill[r][j] for j in range(L))] for r in range(nrows)]
 
 
-def depth1_ops(L, nrows, mt, rich):
-    ops = []
-    ab = [None] + list(range(-L - 1, L + 2))
-    ops += [["sl", a, b, None] for a in ab for b in ab]
-    ops += [["sl", None, None, 1], ["sl", None, None, 2], ["sl", 1, None, 2], ["sl", 0, L, 1]]
+def slice_ops(L, level):
+    if level == "full":          # every a, b in [-L-1, L+1] + None, and the strides
+        ab = [None] + list(range(-L - 1, L + 2))
+        ops = [["sl", a, b, None] for a in ab for b in ab]
+        return ops + [["sl", None, None, 1], ["sl", None, None, 2], ["sl", 1, None, 2], ["sl", 0, L, 1]]
+    if level == "mid":           # every non-negative pair incl. one past the end, each negative bound alone
+        ops = [["sl", a, b, None] for a in [None] + list(range(0, L + 1)) for b in [None] + list(range(0, L + 2))]
+        ops += [["sl", a, None, None] for a in range(-L - 1, 0)] + [["sl", None, b, None] for b in range(-L - 1, 0)]
+        return ops + [["sl", -2, -1, None], ["sl", 1, -1, None], ["sl", -3, 3, None]]
+    return [["sl", a, b, None] for a in (None, 1, -2) for b in (None, L - 1, -1)]
+
+
+def depth1_ops(L, nrows, mt, level):
+    ops = slice_ops(L, level)
     ops += [["ix", i] for i in range(-L, L)]
     ops += [["rc"]]
     ops += [["tp", [], False], ["tp", [0], False], ["tp", [L - 1], False], ["tp", list(range(L))[::-1], False],
@@ -462,8 +472,6 @@ def depth1_ops(L, nrows, mt, rich):
             ["sa", "revhalf", 2, False], ["sa", "dup", 1, True], ["sa", "last2", 2, True], ["sa", "dup", 3, True]]
     ops += [["add", "self"], ["add", "head"], ["add", "fresh"]]
     ops += [["tt", True], ["tt", False], ["rna"], ["dna"]]
-    if not rich:
-        ops = [o for o in ops if o[0] != "sl"] + [["sl", a, b, None] for a in (None, 1, -2) for b in (None, L - 1, -1)]
     uniq = []
     for o in ops:
         if o not in uniq:
@@ -482,25 +490,27 @@ def random_rows(rnd, mt, nrows, L, qmark=False):
 def gen_ops(tier, seed):
     rnd = random.Random(seed)
     thorough = tier == "thorough"
-    plan = [("dna", 0, 2, range(0, 5 if thorough else 4))]
+    # (moltype, fill, rows, lengths, slice level); every gap layout of every listed shape is enumerated
     if thorough:
-        plan += [("dna", 1, 2, range(1, 4)), ("rna", 0, 2, range(1, 4)), ("protein", 0, 2, range(1, 4)),
-                 ("dna", 0, 3, range(1, 3))]
+        plan = [("dna", 0, 2, (0, 1, 2, 3), "full"), ("dna", 0, 2, (4,), "mid"), ("dna", 1, 2, (1, 2, 3), "full"),
+                ("rna", 0, 2, (1, 2, 3), "few"), ("protein", 0, 2, (1, 2, 3), "few"), ("dna", 0, 3, (1,), "full"),
+                ("dna", 0, 3, (2,), "few")]
     else:
-        plan += [("rna", 0, 2, range(2, 3)), ("protein", 0, 2, range(2, 3)), ("dna", 0, 3, range(1, 2))]
-    for mt, fi, nrows, Ls in plan:
+        plan = [("dna", 0, 2, (0, 1, 2), "full"), ("dna", 0, 2, (3,), "few"), ("rna", 0, 2, (2,), "few"),
+                ("protein", 0, 2, (2,), "few"), ("dna", 0, 3, (1,), "few")]
+    for mt, fi, nrows, Ls, level in plan:
         fill = FILLS[mt][fi]
         for L in Ls:
-            ops = depth1_ops(L, nrows, mt, rich=True)
+            ops = depth1_ops(L, nrows, mt, level)
             for rows in layouts(nrows, L, fill):
                 for op in ops:
                     yield [mt, rows, [op]]
     # beyond the frontier: seeded random alignments (incl. '?'), every non-slice op + a reduced slice set
-    for i in range(400 if thorough else 30):
+    for i in range(120 if thorough else 8):
         mt = rnd.choice(["dna", "dna", "rna", "protein"])
         nrows, L = rnd.choice((2, 3, 4)), rnd.choice((5, 6, 7, 8))
         rows = random_rows(rnd, mt, nrows, L, qmark=(i % 3 == 0))
-        for op in depth1_ops(L, nrows, mt, rich=False):
+        for op in depth1_ops(L, nrows, mt, "few"):
             yield [mt, rows, [op]]
 
 
@@ -612,7 +622,10 @@ ARGS = {
 }
 DUNDER = ["__str__", "__repr__", "__len__", "__getitem__", "__add__", "__eq__", "__iter__"]
 
-# methods whose answer must not depend on the class (compared class-blind between Alignment and ArrayAlignment)
+# methods whose answer must not depend on the class (compared class-blind between Alignment and ArrayAlignment).
+# Left out on purpose (the statement does not fix them): pad_seqs (Alignment pads the *ungapped* sequences),
+# with_modified_termini, get_gapped_seq(recode_gaps=True) (the recoding character differs).
+CROSS_SKIP_VARIANT = {("get_gapped_seq", 1)}
 CROSS = {
     "to_dict", "to_fasta", "to_phylip", "to_pretty", "to_nexus", "__len__", "__repr__", "__str__", "num_seqs",
     "counts", "counts_per_pos", "counts_per_seq", "entropy_per_pos", "entropy_per_seq", "probs_per_pos",
@@ -620,7 +633,7 @@ CROSS = {
     "get_gap_array", "count_gaps_per_pos", "count_gaps_per_seq", "get_lengths", "get_identical_sets", "is_ragged",
     "get_ambiguous_positions", "positions", "iter_positions", "has_terminal_stop", "distance_matrix",
     "strand_symmetry", "degap", "get_translation", "trim_stop_codons", "omit_bad_seqs", "omit_gap_runs",
-    "omit_gap_seqs", "omit_gap_pos", "no_degenerates", "pad_seqs", "with_modified_termini", "matching_ref",
+    "omit_gap_seqs", "omit_gap_pos", "no_degenerates", "matching_ref",
     "sliding_windows", "rename_seqs", "copy", "deepcopy", "rc", "reverse_complement", "to_dna", "to_rna",
     "take_positions", "take_seqs", "get_degapped_relative_to", "get_gapped_seq", "__getitem__", "__add__",
 }
@@ -640,9 +653,9 @@ def norm(v, blind=False, depth=0):
     if isinstance(v, _SequenceCollectionBase):
         return ("aln", None if blind else type(v).__name__, [[n, s] for n, s in v.to_dict().items()], v.moltype.label)
     if isinstance(v, Aligned):
-        return ("seq", str(v), v.moltype.label)
+        return str(v) if blind else ("seq", str(v), v.moltype.label)
     if hasattr(v, "moltype") and hasattr(v, "__len__") and not isinstance(v, (list, tuple, dict)):
-        return ("seq", str(v), getattr(v.moltype, "label", None))
+        return str(v) if blind else ("seq", str(v), getattr(v.moltype, "label", None))
     if isinstance(v, dict):
         return ("dict", sorted((repr(norm(k, blind)), norm(x, blind, depth + 1)) for k, x in v.items()))
     if isinstance(v, (set, frozenset)):
@@ -778,7 +791,7 @@ def contract_methods(case):
         answers[cls] = (run(x, True), st)
     if not answers:
         return ("skip",)
-    if len(answers) == 2 and n in CROSS:
+    if len(answers) == 2 and n in CROSS and (n, i) not in CROSS_SKIP_VARIANT:
         (a, sa), (b, sb) = answers["Alignment"], answers["ArrayAlignment"]
         if sa["rows"] == sb["rows"] and a != b:
             return ("fail", f"cross/{n}#{i if i is not None else 'p'}/{viewkind}",
